@@ -26,6 +26,8 @@ struct Case {
     /// the socket takes only this many bytes of the first Keep Alive frame and then nothing for 2 s,
     /// while discovery completes 1 s into that stall and selection takes another 30 s
     ka_write_stall: Option<usize>,
+    /// the Client Information frame arrives in two pieces: the first `cut` bytes, the rest after a pause
+    ci_split: Option<(usize, Duration)>,
     seed: u64,
 }
 
@@ -69,7 +71,7 @@ fn generate(cli: &Cli) -> Vec<Case> {
                 for e in &echoes {
                     let mut lat = [Duration::ZERO; 3];
                     lat[slow_stage] = *l;
-                    out.push(Case { class: String::new(), pre_login: Duration::from_secs(pre), ci_delay: Duration::from_secs(ci), lat, echo: e.clone(), unsolicited: false, ka_write_stall: None, seed: rng.u64() });
+                    out.push(Case { class: String::new(), pre_login: Duration::from_secs(pre), ci_delay: Duration::from_secs(ci), lat, echo: e.clone(), unsolicited: false, ka_write_stall: None, ci_split: None, seed: rng.u64() });
                 }
             }
         }
@@ -77,7 +79,7 @@ fn generate(cli: &Cli) -> Vec<Case> {
     // the first Keep Alive is half written when discovery completes (every cut of the frame)
     for k in 1..10usize {
         for e in [EchoKind::Prompt, EchoKind::DelayedPermille(500), EchoKind::Never, EchoKind::WrongId] {
-            out.push(Case { class: String::new(), pre_login: Duration::ZERO, ci_delay: Duration::ZERO, lat: [Duration::ZERO; 3], echo: e, unsolicited: false, ka_write_stall: Some(k), seed: rng.u64() });
+            out.push(Case { class: String::new(), pre_login: Duration::ZERO, ci_delay: Duration::ZERO, lat: [Duration::ZERO; 3], echo: e, unsolicited: false, ka_write_stall: Some(k), ci_split: None, seed: rng.u64() });
         }
     }
     // random schedules with jitter
@@ -100,8 +102,28 @@ fn generate(cli: &Cli) -> Vec<Case> {
             echo: e,
             unsolicited: rng.chance(1, 8),
             ka_write_stall: None,
+            ci_split: if rng.chance(1, 6) { Some((1 + rng.usize_below(12), Duration::from_millis(rng.below(80_000)))) } else { None },
             seed: rng.u64(),
         });
+    }
+    // a frame that arrives in two pieces far apart: the client is still waiting in the configuration
+    // phase (and a client that does not echo must not be able to hide behind half a frame)
+    for (ci, pause) in [(0u64, 10u64), (0, 20), (0, 40), (0, 70), (20, 40), (20, 70)] {
+        for cut in [1usize, 2, 5] {
+            for e in [EchoKind::Prompt, EchoKind::DelayedPermille(500), EchoKind::Never, EchoKind::WrongId, EchoKind::StopAfter(1)] {
+                out.push(Case {
+                    class: String::new(),
+                    pre_login: Duration::ZERO,
+                    ci_delay: Duration::from_secs(ci),
+                    lat: [Duration::from_secs(if ci == 0 { 5 } else { 60 }), Duration::ZERO, Duration::ZERO],
+                    echo: e,
+                    unsolicited: false,
+                    ka_write_stall: None,
+                    ci_split: Some((cut, Duration::from_secs(pause))),
+                    seed: rng.u64(),
+                });
+            }
+        }
     }
     for c in out.iter_mut() {
         let bucket = |d: Duration| match d.as_millis() {
@@ -114,6 +136,9 @@ fn generate(cli: &Cli) -> Vec<Case> {
         c.class = format!("ci-{}/pre-{}/disc-{}/filter-{}/strat-{}/{:?}{}", bucket(c.ci_delay), bucket(c.pre_login), bucket(c.lat[0]), bucket(c.lat[1]), bucket(c.lat[2]), c.echo, if c.unsolicited { "/unsolicited-echo" } else { "" });
         if let Some(k) = c.ka_write_stall {
             c.class = format!("keep-alive-half-written@{k}/{:?}", c.echo);
+        }
+        if let Some((cut, pause)) = c.ci_split {
+            c.class = format!("{}/client-information-split@{}-pause-{}", c.class, cut.min(3), bucket(pause));
         }
     }
     out
@@ -136,6 +161,9 @@ fn scenario(c: &Case, echo: Echo, lat: [Duration; 3]) -> (Scenario, std::net::So
     }
     plan.echo = echo;
     plan.deadline = Duration::from_secs(900);
+    if let Some((cut, pause)) = c.ci_split {
+        plan.seg.label_splits.push(("ClientInformation".into(), vec![(cut, pause)]));
+    }
     let targets = mk::targets(&mut rng, 3);
     let pick = rng.below(3) as usize;
     let chosen = targets[pick].address;
@@ -171,7 +199,9 @@ fn run_case(c: &Case) -> Outcome {
     // calibration: same timing, prompt echoes, routing that outlasts many periods -> the cadence
     let mut cal_lat = c.lat;
     cal_lat[2] += Duration::from_secs(200);
-    let (cal_sc, _) = scenario(c, Echo::After(Duration::ZERO), cal_lat);
+    let mut cal_case = c.clone();
+    cal_case.ci_split = None;
+    let (cal_sc, _) = scenario(&cal_case, Echo::After(Duration::ZERO), cal_lat);
     let cal = run(&cal_sc);
     let cal_ka: Vec<u64> = ka_times(&cal).iter().map(|k| k.1).collect();
     let mut findings = vec![];
@@ -223,6 +253,8 @@ fn run_case(c: &Case) -> Outcome {
         bad("setup/login-incomplete".into(), format!("login did not reach the configuration phase ({})", r.result.kind()), json!({}));
         return Outcome { findings, sample: json!({"case": c.class}), keep_alives: 0, timed_out: false, transferred: false, skipped: false };
     };
+    // the frame is complete (and routing starts) when its second piece has arrived
+    let t_ci = t_ci + c.ci_split.map(|(_, p)| p.as_nanos() as u64).unwrap_or(0);
     let routing_done = t_ci + (lat[0] + lat[1] + lat[2]).as_nanos() as u64;
     // first Keep Alive (index) this client leaves without a correct echo before the next is due
     let unechoed: Option<usize> = match &c.echo {
@@ -236,11 +268,32 @@ fn run_case(c: &Case) -> Outcome {
         }),
         _ => None,
     };
-    let due = unechoed.and_then(|j| cal_ka.get(j + 1).copied());
+    let mut due = unechoed.and_then(|j| cal_ka.get(j + 1).copied());
+    let mut unechoed = unechoed;
+    if c.ci_split.is_some() {
+        // half a frame on the wire keeps every later frame - an echo too - back until the rest
+        // has been sent: what the client left unechoed is read off what it actually sent, against
+        // the cadence of the calibration run (which has no split)
+        unechoed = None;
+        due = None;
+        for (i, (id, t)) in f.keep_alives.iter().enumerate() {
+            let next_due = (0u64..).map(|k| cal_ka[0] + k * period).find(|tick| *tick > *t + 1_000_000).unwrap_or(u64::MAX);
+            let echoed_in_time = r.client.sent.iter().any(|s| {
+                s.label.starts_with("KeepAliveEcho")
+                    && s.t_ns < next_due
+                    && matches!(Pkt::decode(vp_common::refcodec::Phase::Config, vp_common::refcodec::Dir::Serverbound, 0x04, &s.plain[2..]), Ok(Pkt::ConfKeepAliveIn { id: e }) if e == *id)
+            });
+            if !echoed_in_time {
+                unechoed = Some(i);
+                due = Some(next_due);
+                break;
+            }
+        }
+    }
     // instants at which two things happen at once are not judged
     let near = |a: u64, b: u64| a.abs_diff(b) < 2_000_000;
     let ambiguous = match (unechoed, due) {
-        (Some(j), Some(due)) => near(routing_done, due) || cal_ka.get(j).map(|k| near(routing_done, *k)).unwrap_or(false),
+        (Some(j), Some(due)) => near(routing_done, due) || cal_ka.get(j).map(|k| near(routing_done, *k)).unwrap_or(false) || (c.ci_split.is_some() && r.client.sent.iter().any(|s| s.label.starts_with("KeepAliveEcho") && near(s.t_ns, due))),
         (Some(_), None) => true,
         _ => false,
     };
